@@ -10,7 +10,8 @@ anything else is a VIOLATION.
 governance transactions (node_manager / side_chain_manager / relayer_manager methods that range over Go maps) — is
 executed k times on two ledgers with the same history (fresh stores), and ExecuteResult (write set, digest, cross
 hashes, cross root, events, state root) must be identical; the scripted part is also compared with the Lean model.
-Thorough tier additionally validates the translator by coverage: every contract function executed by the streams must be
+Thorough tier additionally runs a whole-program analysis WITH dependency bodies (SSA + RTA, extract/callgraph/deep) and
+validates the translator by coverage: every contract function executed by the streams must be
 in the translator's reachable set. Stream `clock`: the same ETH SyncBlockHeader transaction on the same state, 3 s apart, rejected then accepted (concrete
 input for the known finding of that site).
 """
@@ -19,16 +20,8 @@ import os
 
 
 def generate(ctx):
-    side = os.path.join(ctx.tmpdir, "callgraph.json")
-    out = ctx.run_extract("callgraph", ["lean", side, "functions"], out_lean="CallGraph.lean", timeout=1800)
-    if out is None:
-        return None
-    try:
-        return json.load(open(side))
-    except Exception as e:  # noqa: BLE001
-        ctx.violate("translator:callgraph-json", "callgraph translator wrote no JSON side file: %r" % (e,),
-                    {"kind": "translator"}, found_input=False)
-        return None
+    from checks import native_extract
+    return native_extract.extract(ctx, "callgraph", ["functions"], "CallGraph.lean")
 
 
 def static_part(ctx, facts):
@@ -36,6 +29,10 @@ def static_part(ctx, facts):
                                                   "registered_handlers", "chain_handler_types")}
     ctx.cov["callgraph"]["entry_points"] = len(facts["entries"])
     ctx.cov["callgraph"]["sink_sites_total"] = len(facts["sites"])
+    ctx.cov["callgraph"]["external_packages_used_by_reachable_code"] = facts.get("external_packages_used") or []
+    ctx.cov["callgraph"]["external_packages_note"] = ("bodies of these packages are not followed by the kernel-checked module graph "
+                                                      "(quick tier: assumed free of clock/random reads that influence results); the "
+                                                      "thorough tier follows them with a whole-program RTA call graph (deep_analysis)")
     reach = [s for s in facts["sites"] if s["reachable"]]
     ctx.cov["callgraph"]["sink_sites_reachable"] = [{"key": s["key"], "pos": s["pos"], "entry": s.get("entry")} for s in reach]
     ctx.cov["evaluations"] += facts["edges_from_reachable"]
@@ -78,9 +75,85 @@ def run(ctx):
     dynamic_part(ctx, hbin)
     if facts and ctx.thorough():
         coverage_crosscheck(ctx, facts)
+        deep_analysis(ctx, facts)
     # the Lean obligations fail exactly when the reachable sites differ from knownSites; the concrete sites are
     # reported above, so the theorem failure itself is only reported when nothing concrete explains it
     ctx.judge_lean()
+
+
+# Dependency-level sink sites that the whole-program analysis may report, with the reason each is not a determinism defect
+# of block execution. Anything else reachable in a dependency is a VIOLATION.
+DEEP_BENIGN = [
+    ("github.com/syndtr/goleveldb/", "storage engine internals (compaction pacing, statistics, iterator sampling, close): do not influence the "
+                                     "values returned by Get/iterators; LevelDB is modelled as a finite map (trusted base)"),
+    ("github.com/ethereum/go-ethereum/log.", "logging"),
+    ("github.com/rs/zerolog/", "logging (harmony's logger)"),
+    ("github.com/ontio/ontology-crypto/ec.curveSqrt", "randomised square-root branch only for curve primes p with p mod 4 != 3; P-256, secp256k1 and SM2 "
+                                                      "take the deterministic branch; the caller fixes the root's parity"),
+    ("github.com/rubblelabs/ripple/data.Now", "reached only through fmt's Stringer dispatch on a ripple Amount with demurrage (RTA imprecision: any "
+                                              "fmt call may print any live type); affects an error/log text only"),
+    ("time.sendTime", "runtime timer callback (reached through reflect.Value.Call imprecision)"),
+    ("internal/concurrent.", "hash seeds of the standard library's internal concurrent map (no observable effect)"),
+]
+
+
+def deep_analysis(ctx, facts):
+    """Thorough tier: whole-program SSA + rapid type analysis WITH the bodies of every dependency (extract/callgraph/deep),
+    loaded through the harness module. Module-level sink callers must be exactly the functions of the known sites;
+    dependency-level ones must be in DEEP_BENIGN."""
+    import vcheck
+    if not ctx.gen_gomod():
+        return
+    binp = os.path.join(ctx.bindir, "x_callgraph_deep")
+    rc, out = vcheck.sh(["go", "build", "-o", binp, "./deep"], cwd=os.path.join(vcheck.EXTRACT, "callgraph"), env=vcheck.GOENV, timeout=900)
+    if rc != 0:
+        ctx.violate("precondition:extract-build:callgraph-deep", "deep call-graph analyser does not build", {"kind": "precondition", "output": out[-3000:]},
+                    found_input=False)
+        return
+    side = os.path.join(ctx.tmpdir, "callgraph.json")
+    if not os.path.exists(side):
+        with open(side, "w") as f:
+            json.dump(facts, f)
+    import subprocess
+    p = subprocess.run([binp, vcheck.HARNESS, os.path.join(ctx.moddir, "go.mod"), side], stdout=subprocess.PIPE, stderr=subprocess.PIPE,
+                       text=True, timeout=3600, env=vcheck.GOENV)
+    ctx.note("deep call-graph analysis rc=%d" % p.returncode)
+    if p.returncode != 0:
+        ctx.violate("translator:callgraph-deep", "whole-program analysis failed: " + p.stderr[-800:], {"kind": "translator", "stderr": p.stderr[-4000:]},
+                    found_input=False)
+        return
+    deep = json.loads(p.stdout)
+    known_funcs = set()
+    for s in facts["sites"]:
+        if s["reachable"]:
+            known_funcs.add(s["key"].split("->")[0])
+    report = {"roots": deep["roots"], "reachable_functions": deep["reachable_functions"],
+              "external_packages_followed": [x["package"] for x in deep["external_packages_followed"]],
+              "module_sites": [], "dependency_sites_benign": [], "unexpected": []}
+    mod = "github.com/polynetwork/poly/"
+    for s in deep["sink_sites"]:
+        caller = s["caller"]
+        name = caller.replace("(*" + mod, "(*").replace(mod, "")
+        if mod in caller:
+            # normalise "(*pkg.T).M" (ssa) to "pkg.(*T).M" (module graph)
+            import re
+            m = re.match(r"\(\*(.+)\.(\w+)\)\.(\w+)$", name)
+            norm = "%s.(*%s).%s" % (m.group(1), m.group(2), m.group(3)) if m else name
+            if norm in known_funcs:
+                report["module_sites"].append(norm + "->" + s["sink"])
+            else:
+                report["unexpected"].append(s)
+            continue
+        why = next((w for pre, w in DEEP_BENIGN if caller.lstrip("(*").startswith(pre)), None)
+        if why:
+            report["dependency_sites_benign"].append({"caller": caller, "sink": s["sink"], "why": why})
+        else:
+            report["unexpected"].append(s)
+    ctx.cov["deep_analysis"] = report
+    for s in report["unexpected"]:
+        ctx.violate("C16:deep-sink-reachable:%s->%s" % (s["caller"], s["sink"]),
+                    "%s is reachable from a native contract entry point through %s (whole-program analysis with dependency bodies)"
+                    % (s["sink"], s["caller"]), {"kind": "call-path", "path": s["path"]}, found_input=False)
 
 
 def coverage_crosscheck(ctx, facts):
